@@ -327,6 +327,45 @@ def srcstale_cases(rnd, n):
     return out
 
 
+def srclast_cases(rnd, n):
+    """two-operand queries with a dest of one to five machine words and a short terminated SOURCE as the last object of the arena (its
+    terminator is the last accessible element): a word-at-a-time path that is bounded by dmax only loads a whole word from the source
+    and reads behind its terminator.  The source is a prefix of dest (so a compare keeps going), or differs in its last character."""
+    out = []
+    fns = [("strprefix_s", 1, 0), ("strcmp_s", 1, 0), ("strcasecmp_s", 1, 0), ("strnatcmp_s", 1, 0), ("strnatcasecmp_s", 1, 0), ("strcmpfld_s", 1, 0),
+           ("strfirstdiff_s", 1, 0), ("strfirstsame_s", 1, 0), ("strlastdiff_s", 1, 0), ("strlastsame_s", 1, 0),
+           ("strstr_s", 1, 1), ("strcasestr_s", 1, 1), ("strpbrk_s", 1, 1), ("strspn_s", 1, 1), ("strcspn_s", 1, 1),
+           ("wcsstr_s", 4, 1), ("wcscmp_s", 4, 1), ("wcsncmp_s", 4, 1), ("wcsicmp_s", 4, 1), ("wcsnatcmp_s", 4, 1), ("wcsnaticmp_s", 4, 1)]
+    for fn, w, hass in fns:
+        for _ in range(n):
+            hl = rnd.choice([7, 8, 9, 15, 16, 17, 24, 31, 33, 40])
+            alpha = [97, 98] if rnd.random() < 0.7 else [97, 65, 98]
+            hay = [rnd.choice(alpha) for _ in range(hl)]
+            k = rnd.choice([0, 1, 2, 3, 5, 6, 7, 8, 9, 11, 15, 17])
+            k = min(k, hl)
+            needle = hay[:k]
+            r = rnd.random()
+            if r < 0.25 and k:
+                needle[-1] = 99
+            elif r < 0.4 and k:
+                needle = hay[hl - k:]
+            dterm = rnd.random() < 0.8
+            dmax = hl + (1 + rnd.choice([0, 0, 3]) if dterm else 0)
+            if fn == "strcmpfld_s":       # compares dmax characters of both: the source has them
+                dmax = max(1, k)
+                dterm = True
+            slen = (len(needle) + rnd.choice([1, 1, 4, 9])) if hass else 0
+            d = 2
+            a = blank(d - 1) + hay + ([0] if dterm else [])
+            while len(a) < d - 1 + dmax:
+                a.append(G(len(a)))
+            a += blank(2)
+            spos = len(a) + 1
+            a += list(needle) + [0]
+            out.append(case(fn, w, d, dmax, spos, slen, a, n=(rnd.choice([1, hl, hl + 3]) if fn == "wcsncmp_s" else 0)))
+    return out
+
+
 def password_cases(rnd, n):
     """strispassword_s needs strings of 6..31 characters: beyond the TLC arena, seeded here"""
     out = []
@@ -404,7 +443,7 @@ def cases(family, seed, tier):
     if family == "strcopy":
         return copy_cases(rnd, k) + cat_cases(rnd, k)
     if family in ("query2", "query2_small"):
-        return find_cases(rnd, k * 5) + cmp_cases(rnd, k * 5) + nat_cases(rnd, k * 5) + dlast_cases(rnd, k * 4) + srcstale_cases(rnd, k * 4)
+        return find_cases(rnd, k * 5) + cmp_cases(rnd, k * 5) + nat_cases(rnd, k * 5) + dlast_cases(rnd, k * 4) + srcstale_cases(rnd, k * 4) + srclast_cases(rnd, k * 4)
     if family == "query1":
         return password_cases(rnd, k * 10)
     if family == "strfld":
